@@ -45,8 +45,8 @@ claim("C10",
 claim("C05",
       "abstract path evaluation of merger_iter_seek (accept sets of the two comparison sites vs. the full re-seek / per-head forward actions) + constructor argument-identity rules",
       "Decides: the forward-seek shortcut is reachable only with sign(target,last returned key)=GT (so seek(K) after next()->K re-seeks every "
-      "source), a head is re-sought iff the target is beyond it, seek clears finished/pending first and returns success on every path, and "
-      "a forward seek that repositions or drops a head records the target as the new reference key; each merger lookup is built from the matching per-source lookup over all sources with its own key parameters, registering and "
+      "source), a head is re-sought iff the target is beyond it, seek clears finished (and the pending flag whenever next reads it before writing it) before the first repositioning call and returns success on every path, and "
+      "a forward seek that repositions or drops a head records the target as the new reference key; each of the four installed merger entry points (delegation between them followed) is built from the matching per-source lookup with its own key parameters over elements 0,1,2,.. of the source vector, leaving the walk only when the index has reached the size, registering and "
       "offering every non-NULL per-source iterator exactly once and freeing on an empty result. The heap the seek rebuilds and next maintains is decided separately in the order domain: for every heap size up to 5 (6 thorough) and every ordering of the heads, heapify/push/pop/replace keep the elements and the parent<=child invariant and pop/replace/peek return a minimum. Equivalence with a single merged table over "
       "all histories is not decided. Also decides the dispatch wiring of the function tables.",
       "Trusts the T-cmp rows 13/14 (invariant read off merger_iter_next: after next returns K all heads are beyond K), loop bound 1 for the "
@@ -64,10 +64,10 @@ claim("C04",
       "role recognition of heap operands by index expression ((pos-1)>>1, 2*pos+1, +1).")
 
 claim("C03",
-      "typestate coupling rule for the cached block offset (conditional on the reuse decision), abstract path evaluation of seek/next flag handling and of needs_index_seek against its decision table, accept sets of in-block seek sites",
+      "typestate coupling rule for the cached block offset (conditional on the reuse decision), abstract path evaluation of seek/next flag handling and of the index-reuse decision on the paths of reader_iter_seek (internal helpers evaluated as part of it), accept sets of in-block seek sites",
       "Decides: wherever a freshly loaded block is stored into a reader iterator the cached offset is stored from the offset that selected it "
       "(directly or through a verified out-parameter), so the reuse shortcut of reader_iter_seek can never see a stale identity; seek past the "
-      "end only marks the iterator invalid, failure is sticky, next advances iff not first; needs_index_seek equals its six-disjunct table; the "
+      "end only marks the iterator invalid, failure is sticky, next advances iff not first; the index iterator keeps its position only on paths that have established: not first, a block is loaded, current key <= target, current index key >= target (re-seeking more often is always correct and is not an alarm); the "
       "continue-from-current shortcut of block_iter_seek is taken only for sign(current,target)=LT inside the located run, and an exhausted block iterator carries restart_index = num_restarts so the shortcut cannot match it. The contract over "
       "all (position,target) histories is not decided. Also decides the dispatch wiring of the function tables; re-runs C09.R6 (C03.D.*). The in-block search (galloping, bisection, continue-from-current shortcut, linear scan) is decided in the order domain: for every block of up to 5 restart points (6 thorough), restart interval 1..3, every iterator state (fresh, at any entry, exhausted) and every position of the target among the keys, block_iter_seek ends on the first entry >= target or exhausted, and never indexes outside the restart array.",
       "Trusts T-cmp rows 2,3,8,10; out-parameter coupling is verified inside the callee by path evaluation; loop bound 1.")
@@ -75,7 +75,7 @@ claim("C03",
 claim("C02",
       "abstract path evaluation (decision tables) of reader_iter_next's per-kind predicate and of bytes_compare, constructor argument-identity table, accept sets of in-block search sites, type rule on char comparisons with a kept positive example",
       "Decides: GET returns iff sign(key,bound)=EQ, RANGE iff sign in {LT,EQ}, PREFIX iff len(bound)<=len(key) and the first len(bound) bytes are equal, "
-      "ITER never ends early, the switch covers every kind; each lookup constructor positions with and bounds by the right parameters and starts its iterator with first=true, valid=true, and gives up (NULL) only when no block could be loaded; bytes_compare's "
+      "ITER never ends early, every kind is handled (by switch label or a chain of equality tests); each of the four entry points the reader installs in its source (decided on their paths with the unit's internal functions evaluated as part of them) seeks the index and then the block with the right parameters, stores the right bound and kind, returns an iterator with the reader's three callbacks that starts with first=true, valid=true, and gives up (NULL) only when no block could be loaded; bytes_compare's "
       "nine-case table (a path that compares no bytes still returns the sign of the length relation) (memcmp sign, else length relation; min length; operand order); no relational operator on plain/signed char bytes anywhere in the "
       "library; bisection/linear-scan accept sets; separator computed iff a block is cut, right before the flush. That index search plus block search "
       "land on the right entry for every table/query, and the separator arithmetic, are not decided. Also decides the dispatch wiring of the mtbl_iter / mtbl_source function tables (slots of equal signature are not cross-wired at registration, in the wrappers or at any construction site); re-runs C09.R6 (C02.D.*): lookups are routed by the separator keys. The in-block search (galloping, bisection, continue-from-current shortcut, linear scan) is decided in the order domain: for every block of up to 5 restart points (6 thorough), restart interval 1..3, every iterator state (fresh, at any entry, exhausted) and every position of the target among the keys, block_iter_seek ends on the first entry >= target or exhausted, and never indexes outside the restart array.",
@@ -113,7 +113,7 @@ claim("C18",
 
 claim("C13",
       "must-lockset dataflow, condition-variable predicate-store discipline against T-cv, lock pairing/nesting graph, join-before-use of handler-written fields (role effect sets from the callback registries), path rules for dispatch/creation/delivery/exits/queue tail",
-      "Decides: every cond-wait sits in a predicate loop with its mutex held; every store to a wait-predicate field holds the mutex and is signalled within the "
+      "Decides: every cond-wait holds its mutex and lies on a flow-graph cycle that no path leaves without passing a branch that re-reads the shared record (a predicate loop, however it is spelled); every store to a wait-predicate field holds the mutex and is signalled within the "
       "critical section unless T-cv lists it as non-enabling (lost wake-ups); locks are paired on every path, nested acquisitions form the one listed acyclic edge, "
       "no join holds a lock the joined thread takes; caller-role accesses to handler-written state are dominated by the join, the no-pool edge or the verified "
       "joined flag; the writer dispatches ordered; worker creation is counted under the pool mutex only when no idle thread exists and the maximum is not reached; "
